@@ -4,12 +4,14 @@
   regenerated from slog/internal/times/dur.go.
 
   Proved here: totality of the formatter for every int64 duration (exact bound on the text
-  length, both styles), the shape of the sign handling, the unit table. The round trip
-  parse ∘ format and the agreement with time.ParseDuration are checked by the correspondence
-  (value-space sweep and grammar-generated strings) — see DESIGN.md §7 C20 for why the float64
-  step keeps them out of the kernel.
+  length, both styles), the shape of the sign handling, the unit table, the round trip
+  parse ∘ format = id for every int64 duration in both styles (`round_trip`, with the float64
+  product at its exact value — assumption A1, validated on every run), and the agreement with
+  time.ParseDuration for every byte string and every behaviour of the float64 step
+  (`agrees_with_std`).
 -/
 import Logg.Model.Duration
+import Logg.Lemmas.Duration
 import Logg.Gen.Tables
 
 namespace Logg.Props.C20
@@ -211,7 +213,251 @@ theorem unit_table :
                    (([109, 115] : Bytes), nsPerMs), (([115] : Bytes), nsPerS), (([109] : Bytes), nsPerMin), (([104] : Bytes), nsPerHour), (([100] : Bytes), nsPerDay)] := by
   decide
 
+/-! ### the round trip: the parser turns the formatter's text back into the duration
+
+  The parser's one float64 expression is the parameter `fmul`; here it is `fmulExact f unit k =
+  f * (unit / 10^k)`, its exact value. On the texts the formatter writes, 10^k divides the unit and
+  f < 10^k, so the float64 evaluation is exact (every operand and result is an integer below 2^53);
+  that the implementation's float64 arithmetic agrees with `fmulExact` there is assumption A1 of
+  DESIGN.md, validated on every run by the correspondence (`fm` lines). -/
+
+def compactFields (u : Nat) : List Fld :=
+  [(u / nsPerDay, ([100] : Bytes), nsPerDay),
+   (u % nsPerDay / nsPerHour, ([104] : Bytes), nsPerHour),
+   (u % nsPerDay % nsPerHour / nsPerMin, ([109] : Bytes), nsPerMin),
+   (u % nsPerDay % nsPerHour % nsPerMin / nsPerS, ([115] : Bytes), nsPerS),
+   (u % nsPerDay % nsPerHour % nsPerMin % nsPerS / nsPerMs, ([109, 115] : Bytes), nsPerMs),
+   (u % nsPerDay % nsPerHour % nsPerMin % nsPerS % nsPerMs / nsPerUs, microSign ++ ([115] : Bytes), nsPerUs),
+   (u % nsPerDay % nsPerHour % nsPerMin % nsPerS % nsPerMs % nsPerUs, ([110, 115] : Bytes), 1)]
+
+theorem fmtCompact_eq (u : Nat) : fmtCompact u = optText (compactFields u) := by
+  simp only [fmtCompact, compactFields, optText, List.append_nil, List.append_assoc]
+
+theorem compactFields_sum (u : Nat) : fieldsSum (compactFields u) = u := by
+  simp only [compactFields, fieldsSum, nsPerDay, nsPerHour, nsPerMin, nsPerS, nsPerMs, nsPerUs]
+  omega
+
+theorem unitText_of (u : Bytes) (h1 : u ≠ []) (h2 : ∀ c ∈ u, numStart c = false) : UnitText u := ⟨h1, h2⟩
+
+theorem goodFld_mk (v : Nat) (u : Bytes) (U : Nat) (h1 : u ≠ []) (h2 : ∀ c ∈ u, numStart c = false)
+    (h3 : Gen.unitMap.lookup u = some U) (h4 : 0 < U) : GoodFld Gen.unitMap (v, u, U) := ⟨⟨h1, h2⟩, h3, h4⟩
+
+theorem compactFields_good (u : Nat) : ∀ f ∈ compactFields u, GoodFld Gen.unitMap f := by
+  intro f hf
+  simp only [compactFields, List.mem_cons, List.not_mem_nil, or_false] at hf
+  rcases hf with rfl | rfl | rfl | rfl | rfl | rfl | rfl <;>
+    exact goodFld_mk _ _ _ (by decide) (by decide) (by decide) (by decide)
+
+/-- the loop reads the compact text of any magnitude up to 2^63 back -/
+theorem compact_loop (u : Nat) (hu : u ≤ 2 ^ 63) (hpos : 0 < u) :
+    let body := fmtCompact u
+    parseLoop Gen.unitMap fmulExact body.length body 0 = .ok u ∧
+      (∃ c t, body = c :: t ∧ numStart c = true) ∧ body.length ≠ 1 := by
+  intro body
+  have hbody : body = fieldsText ((compactFields u).filter (fun f => decide (f.1 > 0))) := by
+    show fmtCompact u = _; rw [fmtCompact_eq, optText_eq]
+  generalize hfs : (compactFields u).filter (fun f => decide (f.1 > 0)) = fs at hbody
+  have hg : ∀ f ∈ fs, GoodFld Gen.unitMap f := by
+    intro f hf; rw [← hfs] at hf; exact compactFields_good u f (List.mem_filter.mp hf).1
+  have hsum : fieldsSum fs = u := by rw [← hfs, fieldsSum_filter, compactFields_sum]
+  have hne : fs ≠ [] := fieldsSum_pos_ne_nil fs (by omega)
+  have hshape := fieldsText_shape Gen.unitMap fs [] hg hne
+  rw [List.append_nil] at hshape
+  rw [hbody]
+  refine ⟨?_, hshape.1, by omega⟩
+  have := parseLoop_row Gen.unitMap fmulExact fs (fieldsText fs).length hg (by rw [hsum]; exact hu) (fieldsText_length fs)
+  rw [this, hsum]
+
+/-- the whole-number fields of the fractional style -/
+def fracFields (u : Nat) : List Fld :=
+  let secs := u / 10 ^ 9
+  let mins := secs / 60
+  let hours := mins / 60
+  if mins > 0 then
+    if hours > 0 then [(hours, ([104] : Bytes), nsPerHour), (mins % 60, ([109] : Bytes), nsPerMin)]
+    else [(mins % 60, ([109] : Bytes), nsPerMin)]
+  else []
+
+theorem fmtFractional_eq (u : Nat) :
+    fmtFractional u = fieldsText (fracFields u) ++ (fmtInt (u / 10 ^ 9 % 60) ++ ((fmtFrac u 9).1 ++ ([115] : Bytes))) := by
+  have hsecs : (fmtFrac u 9).2 = u / 10 ^ 9 := rfl
+  unfold fmtFractional fracFields
+  simp only [hsecs]
+  by_cases hm : u / 10 ^ 9 / 60 > 0
+  · by_cases hh : u / 10 ^ 9 / 60 / 60 > 0
+    · simp only [hm, hh, ↓reduceIte, fieldsText, List.append_assoc, List.append_nil]
+    · simp only [hm, hh, ↓reduceIte, fieldsText, List.append_assoc, List.append_nil]
+  · simp only [hm, ↓reduceIte, fieldsText, List.nil_append, List.append_assoc]
+
+theorem fracFields_good (u : Nat) : ∀ f ∈ fracFields u, GoodFld Gen.unitMap f := by
+  intro f hf
+  unfold fracFields at hf
+  simp only at hf
+  split at hf
+  · split at hf
+    · simp only [List.mem_cons, List.not_mem_nil, or_false] at hf
+      rcases hf with rfl | rfl <;> exact goodFld_mk _ _ _ (by decide) (by decide) (by decide) (by decide)
+    · simp only [List.mem_cons, List.not_mem_nil, or_false] at hf
+      subst hf; exact goodFld_mk _ _ _ (by decide) (by decide) (by decide) (by decide)
+  · simp at hf
+
+theorem fracFields_sum (u : Nat) : fieldsSum (fracFields u) + u / 10 ^ 9 % 60 * 10 ^ 9 + u % 10 ^ 9 = u := by
+  unfold fracFields
+  simp only
+  split
+  · split
+    · simp only [fieldsSum, nsPerHour, nsPerMin, nsPerS]; omega
+    · simp only [fieldsSum, nsPerMin, nsPerS]; omega
+  · simp only [fieldsSum]; omega
+
+theorem fracFields_length (u : Nat) : (fracFields u).length ≤ 2 := by
+  unfold fracFields; simp only; split
+  · split <;> simp
+  · simp
+
+theorem fractional_loop (u : Nat) (hu : u ≤ 2 ^ 63) :
+    let body := fmtFractional u
+    parseLoop Gen.unitMap fmulExact body.length body 0 = .ok u ∧
+      (∃ c t, body = c :: t ∧ numStart c = true) ∧ body.length ≠ 1 := by
+  intro body
+  have hbody : body = _ := fmtFractional_eq u
+  have hs : UnitText ([115] : Bytes) := unitText_of _ (by decide) (by decide)
+  have hg := fracFields_good u
+  have hsum := fracFields_sum u
+  have hfl := fieldsText_length (fracFields u)
+  have hshape : (∃ c t, body = c :: t ∧ numStart c = true) ∧ 2 ≤ body.length := by
+    rw [hbody]
+    by_cases hne : fracFields u = []
+    · rw [hne]; simp only [fieldsText, List.nil_append]; exact fracField_shape _ _ _ _ hs
+    · exact fieldsText_shape Gen.unitMap _ _ hg hne
+  refine ⟨?_, hshape.1, by omega⟩
+  have hff := (fracField_shape (u / 10 ^ 9 % 60) u 9 ([115] : Bytes) hs).2
+  have := parseLoop_row_frac Gen.unitMap (fracFields u) (u / 10 ^ 9 % 60) u 9 ([115] : Bytes) body.length hg (by decide) hs (by decide)
+    (by rw [hsum]; exact hu) (by rw [hbody, List.length_append]; omega)
+  rw [hsum] at this
+  rw [← hbody] at this
+  exact this
+
+theorem subSecond_loop (u : Nat) (hu : u < nsPerS) :
+    let body := fmtSubSecond u
+    parseLoop Gen.unitMap fmulExact body.length body 0 = .ok u ∧
+      (∃ c t, body = c :: t ∧ numStart c = true) ∧ body.length ≠ 1 := by
+  intro body
+  have h63 : nsPerS ≤ two63 := by decide
+  by_cases h0 : u = 0
+  · subst h0; exact ⟨by rfl, ⟨48, [115], rfl, by decide⟩, by decide⟩
+  by_cases h1 : u < nsPerUs
+  · have hbody : body = fieldsText [(u, ([110, 115] : Bytes), 1)] ++ [] := by
+      show fmtSubSecond u = _; simp only [fmtSubSecond, h0, h1, ↓reduceIte, fieldsText, List.append_nil]
+    have hg : ∀ f ∈ [((u, ([110, 115] : Bytes), 1) : Fld)], GoodFld Gen.unitMap f := by
+      intro f hf; simp only [List.mem_cons, List.not_mem_nil, or_false] at hf; subst hf
+      exact goodFld_mk _ _ _ (by decide) (by decide) (by decide) (by decide)
+    have hshape := fieldsText_shape Gen.unitMap _ [] hg (by simp)
+    rw [← hbody] at hshape
+    refine ⟨?_, hshape.1, by omega⟩
+    have := parseLoop_row Gen.unitMap fmulExact _ body.length hg (by simp only [fieldsSum]; omega)
+      (by rw [hbody, List.append_nil]; exact fieldsText_length _)
+    rw [hbody, List.append_nil]; rw [hbody, List.append_nil] at this
+    simpa [fieldsSum] using this
+  by_cases h2 : u < nsPerMs
+  · have hun : UnitText (microSign ++ ([115] : Bytes)) := unitText_of _ (by decide) (by decide)
+    have hbody : body = fieldsText [] ++ (fmtInt (u / 10 ^ 3) ++ ((fmtFrac u 3).1 ++ (microSign ++ ([115] : Bytes)))) := by
+      show fmtSubSecond u = _
+      have hsecs : (fmtFrac u 3).2 = u / 10 ^ 3 := rfl
+      simp only [fmtSubSecond, h0, h1, h2, ↓reduceIte, fieldsText, List.nil_append, hsecs, List.append_assoc]
+    have hshape := fracField_shape (u / 10 ^ 3) u 3 _ hun
+    have hsum : fieldsSum [] + u / 10 ^ 3 * 10 ^ 3 + u % 10 ^ 3 = u := by simp only [fieldsSum]; omega
+    have := parseLoop_row_frac Gen.unitMap [] (u / 10 ^ 3) u 3 _ body.length (by simp) (by decide) hun (by decide)
+      (by rw [hsum]; omega) (by rw [hbody]; simp only [fieldsText, List.nil_append, List.length_nil]; omega)
+    rw [hsum, ← hbody] at this
+    rw [hbody]; simp only [fieldsText, List.nil_append]
+    rw [hbody] at this; simp only [fieldsText, List.nil_append] at this
+    exact ⟨this, hshape.1, by omega⟩
+  · have hun : UnitText ([109, 115] : Bytes) := unitText_of _ (by decide) (by decide)
+    have hbody : body = fieldsText [] ++ (fmtInt (u / 10 ^ 6) ++ ((fmtFrac u 6).1 ++ ([109, 115] : Bytes))) := by
+      show fmtSubSecond u = _
+      have hsecs : (fmtFrac u 6).2 = u / 10 ^ 6 := rfl
+      simp only [fmtSubSecond, h0, h1, h2, ↓reduceIte, fieldsText, List.nil_append, hsecs, List.append_assoc]
+    have hshape := fracField_shape (u / 10 ^ 6) u 6 _ hun
+    have hsum : fieldsSum [] + u / 10 ^ 6 * 10 ^ 6 + u % 10 ^ 6 = u := by simp only [fieldsSum]; omega
+    have := parseLoop_row_frac Gen.unitMap [] (u / 10 ^ 6) u 6 _ body.length (by simp) (by decide) hun (by decide)
+      (by rw [hsum]; omega) (by rw [hbody]; simp only [fieldsText, List.nil_append, List.length_nil]; omega)
+    rw [hsum, ← hbody] at this
+    rw [hbody]; simp only [fieldsText, List.nil_append]
+    rw [hbody] at this; simp only [fieldsText, List.nil_append] at this
+    exact ⟨this, hshape.1, by omega⟩
+
+/-- (5) **Invertible.** For every int64 duration, in the compact and in the fractional style, the
+    package's parser turns the formatter's text back into exactly that duration. -/
+theorem round_trip (d : Int) (frac : Bool) (h : isInt64 d) :
+    parseDuration Gen.unitMap fmulExact (durText d frac) = .ok d := by
+  have hu := natAbs_le d h
+  have hbody : ∀ body : Bytes, body = (if d.natAbs < nsPerS then fmtSubSecond d.natAbs else if frac = true then fmtFractional d.natAbs else fmtCompact d.natAbs) →
+      parseLoop Gen.unitMap fmulExact body.length body 0 = .ok d.natAbs ∧ (∃ c t, body = c :: t ∧ numStart c = true) ∧ body.length ≠ 1 := by
+    intro body hb
+    by_cases h1 : d.natAbs < nsPerS
+    · rw [if_pos h1] at hb; subst hb; exact subSecond_loop _ h1
+    · rw [if_neg h1] at hb
+      cases frac with
+      | true => simp only [↓reduceIte] at hb; subst hb; exact fractional_loop _ hu
+      | false =>
+        simp only [Bool.false_eq_true, ↓reduceIte] at hb; subst hb
+        exact compact_loop _ hu (by have : nsPerS = 1000000000 := rfl; omega)
+  obtain ⟨hloop, hhead, hlen⟩ := hbody _ rfl
+  have hdt : durText d frac = if decide (d < 0) then 45 :: (if d.natAbs < nsPerS then fmtSubSecond d.natAbs else if frac = true then fmtFractional d.natAbs else fmtCompact d.natAbs)
+      else (if d.natAbs < nsPerS then fmtSubSecond d.natAbs else if frac = true then fmtFractional d.natAbs else fmtCompact d.natAbs) := by
+    unfold durText; by_cases hd : d < 0 <;> simp [hd]
+  rw [hdt, parseDuration_body Gen.unitMap fmulExact _ d.natAbs (decide (d < 0)) hhead hlen hloop]
+  unfold isInt64 at h
+  by_cases hd : d < 0
+  · simp only [hd, decide_true, ↓reduceIte]; congr 1; omega
+  · have : ¬ d.natAbs > two63 - 1 := by rw [two63_val]; omega
+    simp only [hd, decide_false, Bool.false_eq_true, ↓reduceIte, this]; congr 1; omega
+
+/-! ### agreement with time.ParseDuration
+
+  `stdUnitsOf Gen.unitMap` is the table of the standard library (the correspondence runs the model
+  over it against `time.ParseDuration` itself); the parser code is the same. `fmul` is arbitrary here:
+  no assumption on the float64 step is needed. -/
+
+/-- (6) For every byte string the package's parser returns what the standard parser returns, or the
+    standard parser stopped at a day unit. -/
+theorem agrees_with_std (fmul : Nat → Nat → Nat → Nat) (s : Bytes) :
+    parseDuration (stdUnitsOf Gen.unitMap) fmul s = parseDuration Gen.unitMap fmul s ∨
+      parseDuration (stdUnitsOf Gen.unitMap) fmul s = .error (.unknownUnit ([100] : Bytes)) :=
+  parseDuration_std Gen.unitMap fmul s
+
+/-- everything the standard parser accepts is accepted with the same result -/
+theorem std_accepted_same (fmul : Nat → Nat → Nat → Nat) (s : Bytes) (d : Int)
+    (h : parseDuration (stdUnitsOf Gen.unitMap) fmul s = .ok d) : parseDuration Gen.unitMap fmul s = .ok d := by
+  rcases agrees_with_std fmul s with e | e
+  · rw [← e]; exact h
+  · rw [h] at e; cases e
+
+/-- whatever the standard parser rejects is rejected for the same reason, unless the reason is the day unit -/
+theorem std_rejected_same_or_day (fmul : Nat → Nat → Nat → Nat) (s : Bytes) (e : DurErr)
+    (h : parseDuration (stdUnitsOf Gen.unitMap) fmul s = .error e) :
+    parseDuration Gen.unitMap fmul s = .error e ∨ e = .unknownUnit ([100] : Bytes) := by
+  rcases agrees_with_std fmul s with e' | e'
+  · left; rw [← e']; exact h
+  · right; rw [h] at e'; injection e'
+
+/-- the standard table is the package's table without the day -/
+theorem std_table :
+    stdUnitsOf Gen.unitMap = [(([110, 115] : Bytes), 1), (([117, 115] : Bytes), nsPerUs), (microSign ++ ([115] : Bytes), nsPerUs), ([0xCE, 0xBC, 115], nsPerUs),
+                   (([109, 115] : Bytes), nsPerMs), (([115] : Bytes), nsPerS), (([109] : Bytes), nsPerMin), (([104] : Bytes), nsPerHour)] := by
+  decide
+
+deriving instance DecidableEq for Except
+
+/-- the one difference is real: "1d" -/
+example : parseDuration Gen.unitMap fmulExact ([49, 100] : Bytes) = .ok (nsPerDay : Int) ∧
+    parseDuration (stdUnitsOf Gen.unitMap) fmulExact ([49, 100] : Bytes) = .error (.unknownUnit ([100] : Bytes)) := by
+  constructor <;> decide +kernel
+
 -- non-vacuity
+example : parseDuration Gen.unitMap fmulExact (durText (-(2 ^ 63)) false) = .ok (-(2 ^ 63)) := round_trip _ _ (by unfold isInt64; omega)
+example : durText 1500 true = [49, 46, 53, 0xC2, 0xB5, 115] := by decide
 example : shortDur Gen.durBufLen (3 * 86400000000000 + 3600000000000) false = some [51, 100, 49, 104] := by decide
 example : shortDur Gen.durBufLen 11000013000 true = some [49, 49, 46, 48, 48, 48, 48, 49, 51, 115] := by decide
 
